@@ -21,6 +21,8 @@
 (*   "dictarr" dictionaries as arrays of {"key","value"}                   *)
 (*   "nomask"  local field masks omitted when every set bit is implied by  *)
 (*             an explicitly given field                                   *)
+(*   "maskonly" a field whose local mask bit is set and which holds the    *)
+(*             empty value is left out (only the mask says it is present)  *)
 (* JsonBad(T, env, v, bad) are INVALID forms every reader must reject.     *)
 (***************************************************************************)
 EXTENDS TL2Format
@@ -84,6 +86,10 @@ WJFields(t, env, v, m, i, acc) ==
            item ==
              IF IsOpt(f) THEN
                (IF ~IsP(v[i]) THEN <<>>
+                \* bit set in a local mask, field itself left out: "set to the empty value"
+                \* (only where the empty value does not depend on size parameters: a tuple must still have its size)
+                ELSE IF m = "maskonly" /\ f.mask.k = "field" /\ ~f.isbit /\ PV(v[i]) = Default(f.t, cenv)
+                        /\ Default(f.t, cenv) = Default(f.t, [j \in 1..Len(cenv) |-> Z4]) THEN <<>>
                 ELSE IF f.isbit THEN << <<f.n, JBool(~(m = "bad-truefalse" /\ ~t.tl2 /\ f.mask.k = "field"))>> >>
                 ELSE << <<f.n, WJ(f.t, cenv, PV(v[i]), m)>> >>)
              ELSE IF m = "nomask" /\ isMaskField /\ MaskImplied(t, v, i) THEN <<>>
@@ -138,7 +144,7 @@ WJ(tn, env, v, m) ==
             THEN JArr([j \in 1..Len(v) |-> JObj(<< <<"key", WJ(kt, <<>>, v[j][1], m)>>, <<"value", WJ(vt, venv(v[j]), v[j][2], m)>> >>)])
             ELSE [t |-> "dict", kv |-> [j \in 1..Len(v) |-> <<WJ(kt, <<>>, v[j][1], "canon"), WJ(vt, venv(v[j]), v[j][2], m)>>]]
 
-Modes == {"full", "numstr", "b64", "maybe", "enumobj", "dictarr", "nomask"}
+Modes == {"full", "numstr", "b64", "maybe", "enumobj", "dictarr", "nomask", "maskonly"}
 (* invalid forms every reader must reject: unknown key, duplicate key, tuple longer than its size *)
 (* parameter, Maybe with ok:false plus a value, true-field false while its mask bit is set (no TL2) *)
 BadModes == {"bad-unknown", "bad-dup", "bad-tuplen", "bad-maybe", "bad-truefalse"}
